@@ -635,6 +635,102 @@ fn std_sinks(rep: &mut Report) {
     }
 }
 
+/// A sink and a stream that themselves talk frames while they are being used: a port object that logs every call as a frame
+/// to a journal, a link that serves the device at the other end on the caller's thread (the reply is written while the
+/// request's write call is still running). `Frame::write` into such a sink and `Frame::read` from such a stream must
+/// behave as with any other: whole line written, next line read, nothing mixed up with the inner traffic.
+struct Chatty {
+    tape: Vec<u8>,
+    pos: usize,
+    accepted: Vec<u8>,
+    journal: Vec<u8>,
+    side_tape: io::Cursor<Vec<u8>>,
+    side_frames_read: usize,
+    side_errors: usize,
+    step: usize,
+}
+
+impl Chatty {
+    fn side_traffic(&mut self, n: usize) {
+        let f = Frame::new(Address(0x7E00 | (n as u16 & 0xFF)), MsgType(9), Data::try_new(vec![n as u8; n % 3]).expect("<=255"));
+        if f.write(&mut self.journal).is_err() {
+            self.side_errors += 1;
+        }
+        match Frame::read(&mut self.side_tape) {
+            Ok(g) if g.address() == Address(0x0042) => self.side_frames_read += 1,
+            _ => self.side_errors += 1,
+        }
+    }
+}
+
+impl io::Write for Chatty {
+    fn write(&mut self, buf: &[u8]) -> io::Result<usize> {
+        self.side_traffic(buf.len());
+        let n = buf.len().min(self.step);
+        self.accepted.extend_from_slice(&buf[..n]);
+        Ok(n)
+    }
+    fn flush(&mut self) -> io::Result<()> {
+        Ok(())
+    }
+}
+
+impl io::Read for Chatty {
+    fn read(&mut self, buf: &mut [u8]) -> io::Result<usize> {
+        self.side_traffic(buf.len());
+        let n = buf.len().min(self.step).min(self.tape.len() - self.pos);
+        buf[..n].copy_from_slice(&self.tape[self.pos..self.pos + n]);
+        self.pos += n;
+        Ok(n)
+    }
+}
+
+fn chatty_io(rng: &mut Rng, rep: &mut Report) {
+    for round in 0..24usize {
+        let frames: Vec<(u16, u8, Vec<u8>)> = (0..6).map(|i| if i == 3 { (0x0003, 4, vec![0x0F]) } else { rand_frame(rng) }).collect();
+        let side_line = refs::enc_crlf(0x0042, 1, &[]);
+        let mut c = Chatty { tape: frames.iter().flat_map(|f| refs::enc_crlf(f.0, f.1, &f.2)).collect(), pos: 0, accepted: vec![], journal: vec![], side_tape: io::Cursor::new(side_line.repeat(20_000)), side_frames_read: 0, side_errors: 0, step: [1usize, 2, 5, 64, usize::MAX][round % 5] };
+        let sig = format!("chatty|{}|step{}", frames.iter().map(|f| format!("{:04X}:{:02X}:{}", f.0, f.1, hex(&f.2))).collect::<Vec<_>>().join(","), c.step);
+        rep.case(Some(fnv(sig.as_bytes())));
+        let r = catch(|| {
+            let mut bad: Vec<String> = vec![];
+            // writes and reads take turns on the one object
+            for (i, f) in frames.iter().enumerate() {
+                let before = c.accepted.len();
+                let fr = Frame::new(Address(f.0), MsgType(f.1), Data::try_new(f.2.clone()).expect("<=255"));
+                if let Err(e) = fr.write(&mut c) {
+                    bad.push(format!("write #{} failed: {:?}", i, e));
+                }
+                let want = refs::enc_crlf(f.0, f.1, &f.2);
+                if c.accepted[before..] != want[..] {
+                    bad.push(format!("write #{} put [{}] into the sink, the line is [{}]", i, show_bytes(&c.accepted[before..]), show_bytes(&want)));
+                }
+                match Frame::read(&mut c) {
+                    Ok(g) if g.address().0 == f.0 && g.message_type().0 == f.1 && g.data().as_ref() == &f.2[..] => {}
+                    other => bad.push(format!("read #{} gave {:?}, the line holds {:04X}:{:02X}:{}", i, other, f.0, f.1, hex(&f.2))),
+                }
+            }
+            bad
+        });
+        let fail = |rep: &mut Report, class: &str, what: String| {
+            rep.violation(MON_W, class, &sig, format!("a sink / stream that writes and reads frames of its own during every call: {}", what), J::obj(vec![("workload", J::s("chatty io")), ("observed", J::s(what.clone()))]));
+        };
+        match r {
+            Err(p) => fail(rep, "panic", format!("panic {} at {}", p.msg, short_loc(&p.loc))),
+            Ok(bad) => {
+                for b in bad {
+                    fail(rep, "reentrant_use_goes_wrong", b);
+                }
+                if c.side_errors > 0 {
+                    fail(rep, "reentrant_use_goes_wrong", format!("{} of the inner writes / reads failed or gave a wrong frame", c.side_errors));
+                } else if c.side_frames_read > 0 {
+                    rep.count("chatty_sessions_ok");
+                }
+            }
+        }
+    }
+}
+
 fn exhaustive_write(rep: &mut Report) {
     let frames = [(0x0003u16, 0x02u8, vec![0xFFu8]), (0xABCD, 0x00, (0..16).collect::<Vec<u8>>()), (0, 1, vec![])];
     for f in frames {
@@ -854,12 +950,13 @@ pub fn run(ctx: &Ctx) -> Outcome {
     let n_rand = ctx.size(1_200_000, 15_000_000);
     let n_write = ctx.size(400_000, 5_000_000);
     let shards = 64usize;
-    let report = run_sharded(ctx, 3 + 1 + shards, |shard, rep| {
+    let mut report = run_sharded(ctx, 3 + 1 + shards, |shard, rep| {
         if shard < 3 {
             exhaustive_read(shard, rep);
         } else if shard == 3 {
             exhaustive_write(rep);
             std_sinks(rep);
+            chatty_io(&mut ctx.rng("chatty", 0), rep);
             twin_write_sessions(&mut ctx.rng("twins", 0), rep);
             marathon(rep);
         } else {
@@ -875,6 +972,12 @@ pub fn run(ctx: &Ctx) -> Outcome {
             }
         }
     });
+    {
+        // the same calls from a thread-local destructor while a thread exits (see exitprobe.rs)
+        let mut at_exit = Report::new();
+        crate::exitprobe::check("codec", MON_W, &mut at_exit);
+        report.merge(at_exit);
+    }
     let floors = vec![
         floor("exhaustive read sets (every composition, every fault position)", report.get("exhaustive_read_sets_done") == 3, report.get("exhaustive_read_sets_done")),
         floor("compositions of a 14-byte stream all enumerated (8192)", report.get("compositions_enumerated") >= 8192, report.get("compositions_enumerated")),
@@ -893,6 +996,7 @@ pub fn run(ctx: &Ctx) -> Outcome {
         floor("several frames to one sink: complete writes, failed writes, and writes after a failed one", report.get("session_writes_ok") > 1000 && report.get("session_writes_failed") > 100 && report.get("session_writes_after_a_failed_one") > 100, format!("{} ok, {} failed, {} after a failed one", report.get("session_writes_ok"), report.get("session_writes_failed"), report.get("session_writes_after_a_failed_one"))),
         floor("near-twin frames written back to back to one sink (no data / 00 / one byte / longer, neighbouring address or type), every ordered pair", report.get("twin_write_sessions") == 6 * 15 * 14, report.get("twin_write_sessions")),
         floor("the standard library's sinks (slice, cursors, vector, buffered writer) with room for every number of bytes up to the line and two more", report.get("std_sink_writes_ok") > 100 && report.get("std_sink_writes_failed") > 100, format!("{} ok, {} failed", report.get("std_sink_writes_ok"), report.get("std_sink_writes_failed"))),
+        floor("sinks and streams that write and read frames of their own during every call", report.get("chatty_sessions_ok") >= 20, report.get("chatty_sessions_ok")),
         floor("gathering sinks and first-slice-only sinks", report.get("sinks/gathering") > 1000 && report.get("sinks/first_slice_only") > 1000, report.get("sinks/gathering")),
         floor("write failures surfaced and complete writes both observed", report.get("write_failures_surfaced") > 0 && report.get("writes_ok_complete") > 0, report.get("write_failures_surfaced")),
     ];
